@@ -66,14 +66,14 @@ theorem recordReceived_consumer (a : App) (cid w N : Nat) (r : Bytes)
   · rw [if_pos hlt]
     simp only [consumerDone, settle_script_nil]
     refine ⟨?_, by first | rfl | trivial, by first | rfl | trivial, fun h' => by omega, fun _ => ⟨by first | rfl | trivial, ?_⟩⟩
-    · simp [App.consumerWrites, App.emit, disconnectConsumer, List.filterMap_append, Ev.cw]
-    · simp [App.dones, App.emit, disconnectConsumer, List.filterMap_append]
+    · simp [App.consumerWrites, App.emit, disconnectConsumer, List.filterMap_append, Ev.cw, writeEvents_cw]
+    · simp [App.dones, App.emit, disconnectConsumer, List.filterMap_append, writeEvents_done]
       rfl
   · rw [if_neg hlt]
     simp only [settle_nil]
     refine ⟨?_, by first | rfl | trivial, by first | rfl | trivial, fun _ => ⟨by first | rfl | trivial, ?_⟩, fun h' => by omega⟩
-    · simp [App.consumerWrites, List.filterMap_append, Ev.cw]
-    · simp [App.dones, List.filterMap_append, Ev.doneVal]
+    · simp [App.consumerWrites, List.filterMap_append, writeEvents_cw]
+    · simp [App.dones, List.filterMap_append, writeEvents_done]
 
 theorem consumer_fold (N cid : Nat) : ∀ (rs : List Bytes) (a : App) (w : Nat),
     a.consumer = some ⟨cid, w, some N, some []⟩ → a.waiting = [] → w < N →
